@@ -71,6 +71,30 @@ fn range_visit<C: Cfg>(n: &RangeNode<C>, acc: &mut Acc) {
     if !dec.maybe_exhausted() {
         fail("decoder does not report maybe_exhausted after consuming precisely the encoded symbols", String::new());
     }
+    // the same stream read through a REVERSED backend (the words stored back to front): the decoder's answers are those of
+    // the forward one at every symbol boundary (an adapter that falls back to "maybe" would make a fresh decoder over
+    // plenty of data claim it may be exhausted)
+    {
+        let mut rev = sealed.clone();
+        rev.reverse();
+        let mut fwd = RangeDecoder::<C::W, C::S, _>::from_compressed(&sealed[..]).unwrap();
+        if let Ok(mut back) = RangeDecoder::<C::W, C::S, _>::with_backend(constriction::backends::Reverse(constriction::backends::Cursor::new_at_write_end(rev))) {
+            for (i, &l) in n.hist.iter().enumerate() {
+                if fwd.maybe_exhausted() != back.maybe_exhausted() {
+                    fail("decoder over a reversed backend answers maybe_exhausted differently from the decoder over the same words in order", format!("before symbol {i}: {} vs {}", back.maybe_exhausted(), fwd.maybe_exhausted()));
+                    break;
+                }
+                if !matches!(C::range_decode(&mut fwd, l), Ok(1)) || !matches!(C::range_decode(&mut back, l), Ok(1)) { break; }
+            }
+        }
+    }
+    // an encoder started on a sink that already holds words is not empty and reports those words, before its first symbol too
+    if n.hist.len() == 1 {
+        let e = constriction::stream::queue::RangeEncoder::<C::W, C::S, Vec<C::W>>::with_backend(sealed.clone());
+        if e.is_empty() != sealed.is_empty() || e.num_words() != sealed.len() || e.num_bits() != sealed.len() * C::WBITS as usize {
+            fail("encoder started on a sink that already holds words: is_empty / num_words / num_bits do not report them", format!("{} words on the sink: is_empty {}, num_words {}, num_bits {}", sealed.len(), e.is_empty(), e.num_words(), e.num_bits()));
+        }
+    }
     acc.c[2] += whole;
     acc.c[3] += end;
     if acc.samples.is_empty() && n.hist.len() >= 3 {
